@@ -20,7 +20,9 @@ RULE = ("grammar-directed files per format (BED3/6/12, bedGraph, narrowPeak, chr
         "orders); delimited tables with a column-name header line; GTF / GFF3 attribute lookups (gene_id, transcript_id, exon_number, "
         "... per feature type; keys that are the tail of a longer key, quoted values containing ';' / '=' / spaces, rows without the "
         "key); buffer-level row selection (masks, index lists, slices, empty selections) and np.concatenate of buffers before "
-        "get_data; integers of up to 19 digits; exhaustive width vectors {1,2,3,9}^(rows x 3 cols) for BED3 and chrom.sizes. "
+        "get_data; integers of up to 19 digits; text fields as arbitrary bytes: multi-byte UTF-8 characters (2-4 bytes), the format's comment "
+        "character at the start of fields other than the first, other punctuation - in the FIRST record more often than not, with and "
+        "without header lines; exhaustive width vectors {1,2,3,9}^(rows x 3 cols) for BED3 and chrom.sizes. "
         "Non-trivial = >= 2 rows with unequal widths in some column, or a sign / '.' / CRLF / comment line present")
 EXHAUSTIVE = {"quick": False, "thorough": False}
 MODEL_OPS = {"parse", "parse_x", "attrs"}   # "parse_x" (corpus): VCF flavours with typed INFO / genotype columns, same handling
@@ -454,6 +456,56 @@ def g_gff3_attr(rng):
     return ";".join(f"{k}={val()}" for k in rng.sample(keys, rng.choice([1, 2, 3, 6])))
 
 
+# multi-byte UTF-8 characters as the bytes they are in a file (2, 3 and 4 bytes per character), written here as the
+# latin-1 reading of those bytes: the case text is a byte string in latin-1 clothing throughout this module
+NONASCII = [ch.encode("utf-8").decode("latin1") for ch in ("\u00e9", "\u00fc", "\u00df", "\u00b5", "\u03a9", "\u4e2d", "\u2014",
+                                                           "\U0001F600", "\u00f1\u00e9")]
+PUNCT = "#@%&()!?~<>[]{}'^$`\\"
+
+
+def spice(rng, fmt, lines, p=0.3):
+    """text fields are arbitrary bytes: with probability p one text field of one record (the FIRST record more often
+    than not) gets (a) a multi-byte UTF-8 character somewhere, (b) the format's comment character as its first byte
+    (never in the first field: that would make the line a comment), or (c) other punctuation somewhere"""
+    F = FORMATS[fmt]
+    cm = F.get("comment") or ""
+    data = [i for i, l in enumerate(lines) if l and not (cm and l.startswith(cm))]
+    if not data or rng.random() >= p:
+        return lines
+    if fmt == "vcf":
+        kinds = [k for _, k in VCF_FIXED] + ["str"]
+        if any(l.startswith("##INFO") for l in lines):
+            kinds[7] = "typed"
+    else:
+        kinds = [k for _, k in F["cols"]]
+        if fmt == "gfa":
+            kinds = ["type"] + kinds
+    i = data[0] if rng.random() < 0.6 else rng.choice(data)
+    f = lines[i].split("\t")
+    tcols = [j for j, k in enumerate(kinds) if k in ("id", "str", "rest") and j < len(f)]
+    if not tcols:
+        return lines
+    what = rng.choice(["nonascii", "nonascii", "comment-start", "punct"])
+    if what == "comment-start":
+        later = [j for j in tcols if j >= 1]
+        if not later or not cm:
+            return lines
+        for j in rng.sample(later, rng.choice([1, 1, min(2, len(later))])):
+            f[j] = cm + f[j]
+    else:
+        j = rng.choice(tcols)
+        pos = rng.randrange(len(f[j]) + 1)
+        ins = rng.choice(NONASCII) if what == "nonascii" else rng.choice(PUNCT)
+        if j == 0 and pos == 0 and cm and ins.startswith(cm):
+            pos = len(f[j])
+        if j == 0 and pos == 0 and fmt == "sam" and ins == "@":
+            pos = len(f[j])
+        f[j] = f[j][:pos] + ins + f[j][pos:]
+    out = list(lines)
+    out[i] = "\t".join(f)
+    return out
+
+
 def g_rows(rng, big):
     return rng.choice([1, 1, 2, 2, 3, 3, 4, 6] + ([10, 25] if big else []))
 
@@ -833,20 +885,20 @@ def cases(tier, rng):
             end = rng.choice(["nl", "nl", "none", "lf"]) if crlf else rng.choice(["nl", "nl", "nl", "none"])
             if fmt == "vcf":
                 fl = rng.choice(VCF_FLAVOURS + ["VCFBuffer2", "VCFBuffer2", "VCFBuffer"])
-                yield _case(fmt, g_vcf(rng, big, fl), crlf, flavour=fl, end=end)
+                yield _case(fmt, spice(rng, fmt, g_vcf(rng, big, fl)), crlf, flavour=fl, end=end)
             elif fmt == "sam":
-                yield _case(fmt, g_sam(rng, big), crlf, end=end)
+                yield _case(fmt, spice(rng, fmt, g_sam(rng, big)), crlf, end=end)
             elif fmt in ("fasta", "fasta2"):
                 yield _case(fmt, g_fasta(rng, big, fmt == "fasta2"), crlf, end=end)
             elif fmt == "fastq":
                 yield _case(fmt, g_fastq(rng, big), crlf, end=end)
             elif fmt == "gfa":
                 n = g_rows(rng, big)
-                yield _case(fmt, ["S\t" + g_ident(rng) + "\t" + g_seq(rng, "ACGT") for _ in range(n)], crlf, end=end)
+                yield _case(fmt, spice(rng, fmt, ["S\t" + g_ident(rng) + "\t" + g_seq(rng, "ACGT") for _ in range(n)]), crlf, end=end)
             elif F.get("colheader"):
                 yield _case(fmt, g_colheader(rng, fmt, big), crlf, end=end)
             else:
-                lines = g_delimited(rng, fmt, big)
+                lines = spice(rng, fmt, g_delimited(rng, fmt, big))
                 if F.get("interior") and lines and lines[-1].startswith(F["comment"]) and end != "nl":
                     end = "nl"
                 via = "raw" if (not any(l.startswith(F["comment"]) for l in lines[:1]) and rng.random() < 0.3) else "open"
@@ -1243,8 +1295,8 @@ def oracle(c):
             return SKIP
     try:
         fmt = c["fmt"]
-        if any(ord(ch) > 126 or (ord(ch) < 32 and ch not in "\t\n\r") for ch in c["text"]):
-            return SKIP
+        if any(ord(ch) > 255 or ord(ch) == 127 or (ord(ch) < 32 and ch not in "\t\n\r") for ch in c["text"]):
+            return SKIP                       # (bytes 128..255 are ordinary text bytes: UTF-8 names, ids, attribute values)
         if fmt == "vcf":
             try:
                 return _ref_vcf(c)
